@@ -89,7 +89,7 @@ Definition pmsg : P msg :=
 Fixpoint insert_msg (m : msg) (l : list msg) : list msg :=
   match l with
   | [] => [m]
-  | x :: t => if m_to m <? m_to x then m :: l else x :: insert_msg m t
+  | x :: t => if m_to m <=? m_to x then m :: l else x :: insert_msg m t
   end.
 Definition sort_msgs (l : list msg) : list msg := fold_right insert_msg [] l.
 
@@ -193,7 +193,7 @@ Definition enc_raft (r : raft) : list N :=
       r_max_election_timeout r] ++ enc_z (r_priority r)
   ++ [r_max_committed_size_per_ready r; enc_nat (t_max_inflight (r_prs r));
       enc_bool (t_group_commit (r_prs r))]
-  ++ [SEC_STORE] ++ enc_store (store (r_log r)).
+  ++ [SEC_STORE] ++ enc_store (store (r_log r)) ++ enc_opt (r_snap_app r).
 
 Definition praft : P raft :=
   _ <~ pexpect SEC_HARD ;; term <~ pnum ;; vote <~ pnum ;; st <~ pnum ;; lead <~ pnum ;;
@@ -211,10 +211,10 @@ Definition praft : P raft :=
   cq <~ pbool ;; pv <~ pbool ;; sbc <~ pbool ;; ba <~ pbool ;; dpf <~ pbool ;;
   ht <~ pnum ;; et <~ pnum ;; mine <~ pnum ;; maxe <~ pnum ;; prio <~ pz ;;
   mcs <~ pnum ;; tmi <~ pnat ;; gc <~ pbool ;;
-  _ <~ pexpect SEC_STORE ;; sto <~ pstore ;;
+  _ <~ pexpect SEC_STORE ;; sto <~ pstore ;; sapp <~ popt ;;
   pret (mkRaft term vote id rss (mkLog sto un cm pe ap lim) mi mms prs_ (dec_role st) promo lead
                lt pci ro ee he cq pv sbc ba dpf ht et ret mine maxe prio mus us llt mcs
-               (mkTr pm cf votes tmi gc) msgs []).
+               (mkTr pm cf votes tmi gc) msgs [] sapp).
 
 Definition enc_opt_pair (o : option (N * N)) : list N :=
   match o with None => [0] | Some (a, b) => [1; a; b] end.
